@@ -6,5 +6,6 @@ let () =
   let oc = open_out Sys.argv.(4) in
   (match mode with
    | "kernel" -> Kdriver.run v ic oc
+   | "sim" -> Sdriver.run v ic oc
    | _ -> failwith ("unknown mode " ^ mode));
   close_out oc
